@@ -248,3 +248,57 @@ def canary(ob, d):
 
 
 canary.canary = True
+
+
+def grid_norm_plain(dmax, dmax_m):
+    out = []
+    for sq in (True, False):
+        for d in range(1, dmax + 1):
+            out.append(dict(d=d, ttm=False, squared=sq))
+        for d in range(1, dmax_m + 1):
+            out.append(dict(d=d, ttm=True, squared=sq))
+    return out
+
+
+@scenario('C07', 'norm.plain', 'torchtt._tt_base.TT.norm', quick=grid_norm_plain(3, 2), thorough=grid_norm_plain(5, 3), replay='norm')
+def norm_plain(ob, d, ttm, squared):
+    """norm() without autograd tracking: QR sweep.  Checked: the sweep has the data flow required by the isometry lemma
+    (each QR factorises the left unfolding of the carried core, the next carried core is R times the next core), and the
+    returned number is the Frobenius norm (resp. its square) of the last carried core.  By the lemma this equals ||val||."""
+    ex = ob.ex
+    x = ob.tt('x', d, ttm=ttm, dtype='complex128')
+    ob.replay_args = {'x': 'x', 'squared': squared, 'tracked': False}
+    cores = list(x.attrs['cores'])
+    r = ex.call(ex.getattr(x, 'norm'), [squared])
+    if not isinstance(r, STensor):
+        ob.fail('tensor_result', 'post', 'norm returned %s' % type(r).__name__)
+        return
+    all_eq(ob, 'shape', r.shape, [])
+    qrs = [(e[1], e[2], e[3]) for e in ex.events if e[0] == 'qr']
+    ob.prove('n_qr', len(qrs) == d - 1, 'ghost')
+    if len(qrs) != d - 1:
+        return
+    carrier = cores[0]
+    ok_all = True
+    for i in range(d - 1):
+        A, Q, R = qrs[i]
+        ok = A.ghost.get('unfold_left_of') is carrier
+        ob.prove('sweep.qr%d_of_left_unfolding_of_carrier' % i, bool(ok), 'ghost')
+        if i + 1 < d - 1:
+            nxt = qrs[i + 1][0].ghost.get('unfold_left_of')
+        else:
+            nxt = r.ghost.get('norm_of')
+        m = nxt.ghost.get('fold_right_of') if isinstance(nxt, STensor) else None
+        cm = m.ghost.get('carrier_mat') if m is not None else None
+        okn = cm is not None and cm['qr'] is Q.ghost['qr'] and cm['next_core'] is cores[i + 1]
+        ob.prove('sweep.carrier%d_is_R_times_next_core' % (i + 1), bool(okn), 'ghost')
+        ok_all = ok_all and ok and okn
+        carrier = nxt
+    if not ok_all or not isinstance(carrier, STensor):
+        return
+    want = T.fro_norm(carrier)
+    if squared:
+        want = T.power(want, 2)
+    if r.ndim == 0:
+        ob.prove_eq('value_is_norm_of_last_carrier', r.at([]), want.at([]))
+    ob.frame()
